@@ -36,11 +36,12 @@ const (
 // ---- per-connection record (keyed by the client's address = the server session's remote address)
 
 type connRec struct {
-	hooks      [nStages]int
-	postAccept int
-	disc       int
-	calls      []int32
-	pushes     []int32
+	hooks                   [nStages]int
+	postAccept              int
+	otherBefore, otherAfter int
+	disc                    int
+	calls                   []int32
+	pushes                  []int32
 }
 
 var (
@@ -134,12 +135,57 @@ type checkerCfg struct {
 	propagate bool   // recvs==2: return the second call's status when it is not OK
 	mode      string // verdict on the received info: eq | all | none
 	token     []byte
+	panicAt   int    // 0 never; 1 the checker function panics at once; 2 it panics after its RecvOnce calls (verify code)
+	before    string // a PostAccept plugin registered before the checker: "" absent | ok | reject | panic
+	after     string // ... and one registered behind it
+}
+
+// otherAccept is a second PostAccept plugin; its behaviour is set per case.
+type otherAccept struct{ after bool }
+
+func (o otherAccept) Name() string {
+	if o.after {
+		return "c16-other-after"
+	}
+	return "c16-other-before"
+}
+
+func (o otherAccept) PostAccept(s erpc.PreSession) *erpc.Status {
+	b := curCk.before
+	if o.after {
+		b = curCk.after
+	}
+	if b == "" {
+		return nil
+	}
+	recMu.Lock()
+	if o.after {
+		recOf(s.RemoteAddr().String()).otherAfter++
+	} else {
+		recOf(s.RemoteAddr().String()).otherBefore++
+	}
+	recMu.Unlock()
+	if b != "ok" {
+		atomic.StoreInt32(&otherFailed, 1)
+	}
+	switch b {
+	case "reject":
+		return erpc.NewStatus(451, "other plugin says no", "")
+	case "panic":
+		var parts []string
+		_ = parts[1] // index out of range, like a verify function that trusts its input
+	}
+	return nil
 }
 
 var (
 	curCk   checkerCfg
 	fnCalls int32
 	fnMulti int32
+	// ground truth of the exchange, recorded by the harness' own plugins: the checker function
+	// returned (ret, nil), and no other PostAccept plugin returned a non-OK status or panicked
+	ckSaidOK    int32
+	otherFailed int32
 )
 
 func verdict(c checkerCfg, info []byte) bool {
@@ -157,20 +203,28 @@ var theChecker = auth.NewCheckerPlugin(
 		c := curCk
 		var info string
 		var s1 *erpc.Status
+		if c.panicAt == 1 {
+			panic("checker function panics before reading")
+		}
 		if c.recvs >= 1 {
 			atomic.AddInt32(&fnCalls, 1)
 			s1 = fn(&info)
 		}
+		var s2 *erpc.Status
 		if c.recvs >= 2 {
 			var dummy string
 			atomic.AddInt32(&fnCalls, 1)
-			s2 := fn(&dummy)
+			s2 = fn(&dummy)
 			if s2 == auth.MultiRecvErr {
 				atomic.AddInt32(&fnMulti, 1)
 			}
-			if c.propagate && !s2.OK() {
-				return nil, s2
-			}
+		}
+		if c.panicAt == 2 {
+			parts := bytes.Split([]byte(info), []byte(":"))
+			_ = parts[len(parts)+1] // verify code that indexes past what it was given
+		}
+		if c.recvs >= 2 && c.propagate && !s2.OK() {
+			return nil, s2
 		}
 		if !s1.OK() {
 			return nil, s1
@@ -178,6 +232,7 @@ var theChecker = auth.NewCheckerPlugin(
 		if !verdict(c, []byte(info)) {
 			return nil, erpc.NewStatus(403, "auth fail", "auth fail detail")
 		}
+		atomic.StoreInt32(&ckSaidOK, 1)
 		return "pass", nil
 	},
 	erpc.WithBodyCodec('s'),
@@ -353,12 +408,15 @@ type outcome struct {
 	rec          connRec
 	recPostAcc   int
 	servedInTime bool
+	authOK       bool // the harness' own plugins: checker verdict OK and nobody else in the chain failed
 }
 
 func runCase(srv erpc.Peer, sc *script) *outcome {
 	curCk = sc.ck
 	atomic.StoreInt32(&fnCalls, 0)
 	atomic.StoreInt32(&fnMulti, 0)
+	atomic.StoreInt32(&ckSaidOK, 0)
+	atomic.StoreInt32(&otherFailed, 0)
 	cc, sconn := TCPPair()
 	addr := cc.LocalAddr().String()
 	var (
@@ -406,7 +464,7 @@ func runCase(srv erpc.Peer, sc *script) *outcome {
 
 	var sent []byte
 	waitServer := func() {
-		if needMore(sent) && sc.ck.recvs > 0 {
+		if needMore(sent) && sc.ck.recvs > 0 && sc.ck.panicAt != 1 && (sc.ck.before == "" || sc.ck.before == "ok") {
 			time.Sleep(settle)
 			return
 		}
@@ -473,6 +531,7 @@ func runCase(srv erpc.Peer, sc *script) *outcome {
 	cc.Close()
 	o.fnCalls = int(atomic.LoadInt32(&fnCalls))
 	o.fnMulti = int(atomic.LoadInt32(&fnMulti))
+	o.authOK = atomic.LoadInt32(&ckSaidOK) == 1 && atomic.LoadInt32(&otherFailed) == 0
 	rmu.Lock()
 	for _, m := range frames {
 		code := int(m.Status().Code())
@@ -535,7 +594,7 @@ func render(o *outcome) string {
 	}
 	return VL(vsnap(o.mid), VBool(o.eofBefore), vsnap(o.fin),
 		VL(VN(int64(o.fnCalls)), VN(int64(o.fnMulti))),
-		VL(ar...), VN(int64(o.rec.postAccept)), VN(int64(o.rec.disc)),
+		VL(ar...), VL(VN(int64(o.rec.otherBefore)), VN(int64(o.rec.otherAfter))), VN(int64(o.rec.postAccept)), VN(int64(o.rec.disc)),
 		VL(hooks...), vints32(o.rec.calls), vints32(o.rec.pushes), VL(rep...), VN(int64(o.otherFrames)))
 }
 
@@ -544,7 +603,14 @@ func vcase(sc *script) string {
 	for _, c := range sc.chunks {
 		ch = append(ch, VB(c))
 	}
-	return VL(VN(sizeLimit), VL(VN(int64(sc.ck.recvs)), VBool(sc.ck.propagate), VS(sc.ck.mode), VB(sc.ck.token)), VL(ch...))
+	hb := func(b string) string {
+		if b == "" {
+			return VS("none")
+		}
+		return VS(b)
+	}
+	return VL(VN(sizeLimit), VL(VN(int64(sc.ck.recvs)), VBool(sc.ck.propagate), VS(sc.ck.mode), VB(sc.ck.token),
+		VN(int64(sc.ck.panicAt)), hb(sc.ck.before), hb(sc.ck.after)), VL(ch...))
 }
 
 // ---- oracle on the implementation's own observations
@@ -566,12 +632,15 @@ func oracle(st *Stats, i int, sc *script, o *outcome) {
 	if !o.eofAfter || !o.servedInTime {
 		st.Fail(i, "not-quiescent", "server did not finish the connection after the client's EOF", h)
 	}
-	if !accepted {
+	if accepted && !o.authOK {
+		st.Fail(i, "accepted-without-auth", "ServeConn returned a session although the checker did not return OK or another PostAccept plugin refused / panicked", h)
+	}
+	if !accepted || !o.authOK {
 		if handled > 0 {
-			st.Fail(i, "handler-before-auth", Fmt("%d handler invocation(s) on a connection that was never accepted", handled), h)
+			st.Fail(i, "handler-before-auth", Fmt("%d handler invocation(s) on a connection whose authentication did not succeed", handled), h)
 		}
 		if hookSum > 0 {
-			st.Fail(i, "hook-before-auth", Fmt("%d per-message hook invocation(s) on a connection that was never accepted", hookSum), h)
+			st.Fail(i, "hook-before-auth", Fmt("%d per-message hook invocation(s) on a connection whose authentication did not succeed", hookSum), h)
 		}
 		if o.rec.postAccept > 0 {
 			st.Fail(i, "later-accept-hook-ran", "a PostAccept plugin placed after the checker ran on a rejected connection", h)
@@ -579,7 +648,7 @@ func oracle(st *Stats, i int, sc *script, o *outcome) {
 		if len(o.replies) > 0 || o.otherFrames > 0 {
 			st.Fail(i, "app-bytes-to-unauthenticated", "the server wrote application frames to a connection that was never accepted", h)
 		}
-		if okReplies > 0 {
+		if okReplies > 0 && (sc.ck.after == "" || sc.ck.after == "ok") {
 			st.Fail(i, "ok-reply-but-rejected", "AUTH_REPLY with OK status on a rejected connection", h)
 		}
 		if o.mid.indexed != 0 || o.mid.listed || o.fin.indexed != 0 || o.fin.listed {
@@ -588,7 +657,8 @@ func oracle(st *Stats, i int, sc *script, o *outcome) {
 		if o.mid.served == "rejected" && !o.eofBefore {
 			st.Fail(i, "rejected-not-closed", "rejected connection was not closed by the server", h)
 		}
-	} else {
+	}
+	if accepted {
 		if okReplies != 1 || len(o.authReplies) != 1 {
 			st.Fail(i, "exchange-not-once", Fmt("accepted connection saw AUTH_REPLY codes %v (want exactly one, OK)", o.authReplies), h)
 		}
@@ -783,7 +853,23 @@ func genCase(cfg *RunCfg) *script {
 		ck.recvs = 0
 		ck.mode = "all"
 	}
-	loopFirst := ck.recvs == 0 && ck.mode == "all" // every byte goes to the read loop
+	// the rest of the PostAccept chain and faults inside the checker
+	switch k := r.Intn(16); {
+	case k < 9:
+	case k == 9:
+		ck.panicAt = 1
+	case k == 10 || k == 11:
+		ck.panicAt = 2
+	case k == 12:
+		ck.before = []string{"ok", "reject", "panic"}[r.Intn(3)]
+	case k == 13 || k == 14:
+		ck.after = []string{"ok", "reject", "panic"}[r.Intn(3)]
+	default:
+		ck.before = []string{"ok", "reject", "panic"}[r.Intn(3)]
+		ck.after = []string{"ok", "reject", "panic"}[r.Intn(3)]
+	}
+	chainOK := ck.panicAt == 0 && (ck.before == "" || ck.before == "ok") && (ck.after == "" || ck.after == "ok")
+	loopFirst := ck.recvs == 0 && ck.mode == "all" && chainOK // every byte goes to the read loop
 
 	authF := natural(rawFrame{seq: strconv.FormatInt(int64(1+r.Intn(40000)), 36), mtype: erpc.TypeAuthCall, codec: 's', body: token})
 	var first []byte
@@ -906,6 +992,7 @@ func genCase(cfg *RunCfg) *script {
 	default:
 		accept = firstIsAuth && (firstOK || ck.mode == "all") && ck.mode != "none"
 	}
+	accept = accept && chainOK
 	sc.expectAccept = accept
 	if accept {
 		sc.expectReplies = nCalls
@@ -936,8 +1023,8 @@ func genCase(cfg *RunCfg) *script {
 		sc.chunks, sc.pauseAt, sc.split = split(cfg, first, rest, false)
 	}
 	sc.ck = ck
-	sc.human = fmt.Sprintf("checker(recvs=%d propagate=%v mode=%s token=%q) first=%s suffix=[%s] split=%s stream=%s",
-		ck.recvs, ck.propagate, ck.mode, token, sc.class, labels, sc.split, Hx(append(append(append([]byte(nil), first...), rest...), tail...)))
+	sc.human = fmt.Sprintf("chain(before=%q panic-at=%d after=%q) checker(recvs=%d propagate=%v mode=%s token=%q) first=%s suffix=[%s] split=%s stream=%s",
+		ck.before, ck.panicAt, ck.after, ck.recvs, ck.propagate, ck.mode, token, sc.class, labels, sc.split, Hx(append(append(append([]byte(nil), first...), rest...), tail...)))
 	return sc
 }
 
@@ -957,7 +1044,7 @@ func main() {
 		runBearer(cfg)
 		return
 	}
-	srv := erpc.NewPeer(erpc.PeerConfig{}, theChecker, recorder{})
+	srv := erpc.NewPeer(erpc.PeerConfig{}, otherAccept{after: false}, theChecker, otherAccept{after: true}, recorder{})
 	srv.RouteCall(new(App))
 	srv.RoutePush(new(Note))
 
@@ -976,6 +1063,7 @@ func main() {
 		st.Count("first:" + sc.class)
 		st.Count("split:" + sc.split)
 		st.Count(Fmt("checker:recvs=%d,propagate=%v,mode=%s", sc.ck.recvs, sc.ck.propagate, sc.ck.mode))
+		st.Count(Fmt("chain:before=%s,panic-at=%d,after=%s", sc.ck.before, sc.ck.panicAt, sc.ck.after))
 		st.Count("outcome:" + o.mid.served + "->" + o.fin.served)
 		if sc.sufClass != "" {
 			st.Count("suffix:nonempty")
@@ -989,7 +1077,7 @@ func main() {
 			all = append(all, c...)
 		}
 		if len(all) > 0 {
-			distinct.Add(Fmt("%d/%v/%s/%x/%s", sc.ck.recvs, sc.ck.propagate, sc.ck.mode, all, sc.split))
+			distinct.Add(Fmt("%d/%v/%s/%d/%s/%s/%x/%s", sc.ck.recvs, sc.ck.propagate, sc.ck.mode, sc.ck.panicAt, sc.ck.before, sc.ck.after, all, sc.split))
 		}
 		if len(st.Samples) < 6 {
 			st.Samples = append(st.Samples, sc.human+" => "+render(o))
